@@ -94,6 +94,7 @@ TOLERANCES = {
     "list-vs-single": 1e-13,       # scaled
     "cfsp-consistent": 1e-13,      # scaled
     "gradient-filter-difference": 1e-13,   # scaled
+    "chain-after-kwargs": 1e-13,   # scaled
 }
 TIMEOUT = 300
 
@@ -1093,6 +1094,25 @@ def _run_opts(case, ck):
             r = cx.call(bare, d, label=cx.label(nm) + " without "
                         "medium_index/illum_wavelen attrs", meta_kwargs=True)
             cx.acc.append(np.round(cx.plane(r).ravel()[:16], 9))
+            # the result can be propagated further without repeating the
+            # optics: it equals the two-step result of the image that
+            # carries its optics itself
+            from holopy import propagate
+            try:
+                r2 = propagate(r, d0)
+            except Exception as e:
+                _fail(ck, "chain-after-kwargs", "propagate(propagate(image "
+                      "without optics, %r, medium_index=, illum_wavelen=), "
+                      "%r) raised %s: %s" % (d, d0, type(e).__name__, e))
+                continue
+            ck.trans += 1
+            ref2 = propagate(cx.P(nm, d), d0)
+            ck.trans += 1
+            cx.cmp("chain-after-kwargs", cx.plane(r2), cx.plane(ref2),
+                   float(np.abs(cx.values(nm)).max()),
+                   (abs(d) + abs(d0)) / LAM_M,
+                   "%s: second propagation of a result whose optics were "
+                   "given in the first call" % cx.label(nm))
     # group law with cascaded propagation
     for cfsp in (1, 3):
         for d1, d2 in PAIRS["mini"]:
